@@ -131,6 +131,11 @@ fn check_quoted(ctx: &mut Ctx) {
 
 pub const ALPHABET: [char; 14] = ['a', '1', '_', '$', ' ', '\'', '"', '`', '[', ']', '\\', '?', 'é', '\u{00A0}'];
 
+pub const SQL_ALPHABET: [char; 13] = ['/', '*', '-', '#', '\n', ';', ':', '.', '\'', '$', 'x', ' ', '\0'];
+const SQL_CORPUS: &[&str] = &[
+    "-- c\nSELECT 1", "SELECT 1 -- c", "/* c */ SELECT ?", "/*/*", "/* a /* b */ c */ ?", "/*/", "/* ' */ ?", "-- ' \n ?", "# c\n?", "a;b;", "$$a?$$", "$t$ ? $t$ $1", "E'a\\'b' ?", "x'AB' X'cd'",
+    "N'a' U&'b'", "1e5 1.5e-3 .5", "a.b.c", "a::int", "a->>'k' #>> ?", "\0SELECT", "a\0b", "'a\0?' = ?", "\u{feff}SELECT", "SELECT\u{feff}", "\u{2028}?\u{2029}", "a\u{0301}b", "\u{1F600}?\u{10FFFF}",
+];
 const CORPUS: &[&str] = &[
     "", "SELECT * FROM `character`", "SELECT * FROM `character` WHERE id = ?",
     "SELECT * FROM \"character\" WHERE id = $1", "SELECT * FROM [character]",
@@ -141,8 +146,8 @@ const CORPUS: &[&str] = &[
 pub fn run(ctx: &mut Ctx) {
     let max_len = if ctx.tier_thorough { 6 } else { 5 };
     ctx.rule = format!(
-        "corpus ({} strings incl. the crate's own test inputs); ALL strings over the {}-symbol alphabet {:?} of length 0..={} (exhaustive); {} random Unicode strings; {} structured quoted-span cases. Non-trivial = length >= 2, distinct by input.",
-        CORPUS.len(), ALPHABET.len(), ALPHABET, max_len,
+        "corpus ({} strings incl. the crate's own test inputs, comments, dollar quoting, prefixed literals, NUL, BOM); ALL strings over the {}-symbol alphabet {:?} and over the 13 characters SQL comments / casts / dollar quotes are made of, of length 0..={} (exhaustive); {} random Unicode strings; {} structured quoted-span cases. Non-trivial = length >= 2, distinct by input.",
+        CORPUS.len() + SQL_CORPUS.len(), ALPHABET.len(), ALPHABET, max_len,
         if ctx.tier_thorough { 200000 } else { 20000 }, if ctx.tier_thorough { 200000 } else { 20000 });
     if let Some(rp) = ctx.replay.clone() {
         if let Some(s) = rp.get("input").and_then(|i| i.get("input")).and_then(|x| x.as_str()) {
@@ -151,8 +156,14 @@ pub fn run(ctx: &mut Ctx) {
         return;
     }
     for s in CORPUS { check_one(ctx, s); }
+    for s in SQL_CORPUS { check_one(ctx, s); }
     for len in 0..=max_len {
         for_each_string(&ALPHABET, len, &mut |s| check_one(ctx, s));
+    }
+    // the characters SQL comments, casts, dollar quoting, prefixed literals and statement ends are made of (nothing of this is
+    // special to the tokenizer, and nothing may become special by losing a character)
+    for len in 0..=max_len {
+        for_each_string(&SQL_ALPHABET, len, &mut |s| check_one(ctx, s));
     }
     ctx.exhaustive = true;
     let n = if ctx.tier_thorough { 200000 } else { 20000 };
